@@ -328,13 +328,44 @@ theorem mapVals_numsOk (h : Str → J → J) (hh : ∀ k v, v.numsOk = true → 
     simp only [mapVals, List.map_cons, numsOkKVs, Bool.and_eq_true] at ih ⊢
     exact ⟨hh k v hl.1, ih⟩
 
+
+theorem nsFieldVal_numsOk (c : Ctx) (k : Str) (v : J) (hv : J.numsOk v = true) : J.numsOk (c.nsFieldVal k v) = true := by
+  cases v <;> simp only [Ctx.nsFieldVal] <;> (try split) <;> simp_all [J.numsOk]
+
+theorem nsDocOf_numsOk (c : Ctx) (v : J) (hv : J.numsOk v = true) : J.numsOk (c.nsDocOf v) = true := by
+  cases v with
+  | obj m =>
+    simp only [Ctx.nsDocOf, J.numsOk] at hv ⊢
+    exact mapVals_numsOk _ (fun k v hv => nsFieldVal_numsOk c k v hv) m hv
+  | _ => exact hv
+
+theorem mapList_numsOk (f : J → J) (hf : ∀ x, J.numsOk x = true → J.numsOk (f x) = true) :
+    ∀ xs : List J, numsOkList xs = true → numsOkList (xs.map f) = true
+  | [], _ => rfl
+  | x :: xs, h => by
+    simp only [numsOkList, Bool.and_eq_true] at h
+    simp only [List.map_cons, numsOkList, Bool.and_eq_true]
+    exact ⟨hf x h.1, mapList_numsOk f hf xs h.2⟩
+
+theorem nsVal_numsOk (c : Ctx) (k : Str) (v : J) (hv : J.numsOk v = true) : J.numsOk (c.nsVal k v) = true := by
+  unfold Ctx.nsVal
+  split
+  · exact nsDocOf_numsOk c v hv
+  · split
+    · cases v with
+      | arr xs =>
+        simp only [J.numsOk] at hv ⊢
+        exact mapList_numsOk _ (fun x hx => nsDocOf_numsOk c x hx) xs hv
+      | _ => exact hv
+    · exact nsFieldVal_numsOk c k v hv
+
 theorem cmdDoc_numsOk (c : Ctx) (hT : (c.T.number.all fun ch => 0x20 ≤ ch.toNat) = true) (v : J) (h : v.numsOk = true) :
     (c.cmdDoc v).numsOk = true := by
   rw [← Ctx.cmdDoc_refine]
   cases v with
   | obj cmd =>
     simp only [J.numsOk] at h
-    have e1 : c.redactCommandA cmd = mapVals (fun k v => c.run (Ctx.zoneState (lookup sInsert cmd).isSome k) v) cmd := rfl
+    have e1 : c.redactCommandA cmd = mapVals (fun k v => c.run (Ctx.zoneState (lookup sInsert cmd).isSome (lookup sBulkWrite cmd).isSome k) v) cmd := rfl
     have e2 : ∀ l, c.redactNamespace l = mapVals c.nsVal l := fun _ => rfl
     have h1 : numsOkKVs (c.redactCommandA cmd) = true := by
       rw [e1]; exact mapVals_numsOk _ (fun k v hv => Ctx.run_numsOk c hT _ v hv) cmd h
@@ -343,7 +374,7 @@ theorem cmdDoc_numsOk (c : Ctx) (hT : (c.T.number.all fun ch => 0x20 ≤ ch.toNa
     · simp only [J.numsOk]; rw [e2]
       apply mapVals_numsOk _ _ _ h1
       intro k v hv
-      cases v <;> simp only [Ctx.nsVal] <;> (try split) <;> simp_all [J.numsOk]
+      exact nsVal_numsOk c k v hv
     · simpa [J.numsOk] using h1
   | _ => exact h
 
